@@ -212,6 +212,35 @@ def mon_cleanup(events, steps, nl):
     return None
 
 
+def mon_delivery(events, steps):
+    """C13: a response is delivered to the oldest request still waiting for that command - a request that was waiting
+    when its response arrived never ends in a response TIMEOUT.  (Only histories without close / loss are judged, and a
+    request that is cancelled by its caller is not judged.)"""
+    if any(e[0] in ("close", "lost", "uclose") for e in events):
+        return None
+    cancelled = {e[1] for e in events if e[0] == "cancel"}
+    en = ends(steps)
+    issued = []          # (rid, class path) in issue order
+    served = set()
+    for i, e in enumerate(events):
+        if e[0] == "issue":
+            issued.append((e[1], A.KINDS[e[2]][0]))
+        elif e[0] in ("rsp", "rsp2"):
+            for kind in e[1:]:
+                cls = A.KINDS[kind][0]
+                live = [rid for rid, c in issued if c == cls and rid not in served and not (rid in en and en[rid][0] < i)]
+                if not live:
+                    continue
+                r0 = live[0]
+                served.add(r0)
+                if r0 in cancelled:
+                    continue
+                if r0 in en and en[r0][1] == "TIMEOUT":
+                    return ("request %d was waiting for its response when the response arrived (event %d), but ended with a "
+                            "response timeout: the response was not delivered to it" % (r0, i))
+    return None
+
+
 def mon_close(events, steps):
     """C20: after close (no reset in progress) everything ends within the ACK wait; new requests refused at once;
     connection loss reported once per loss (and not during a reset)."""
